@@ -228,7 +228,7 @@ type ValClass int
 
 const (
 	ValsShort ValClass = iota
-	ValsMixed          // empty, short, 1-4KB
+	ValsMixed          // empty, short, 1-4KB, and (1 in 48) 64 KiB - 128 KiB incl. exact multiples of 64 KiB
 	ValsMagic          // laden with magic markers / root fragments
 	ValsBig            // 1-4KB always (for read-ahead visibility)
 )
@@ -243,6 +243,12 @@ func Val(r *R, class ValClass, id string, rootFrag []byte) []byte {
 		case 0:
 			return []byte{}
 		case 1:
+			if r.Intn(8) == 0 {
+				// around and at multiples of 64 KiB (exact total length)
+				l := []int{65535, 65536, 65537, 70000, 131072}[r.Intn(5)]
+				v := []byte(id + "|")
+				return append(v, r.Bytes(l-len(v))...)
+			}
 			return append([]byte(id+"|"), r.Bytes(r.Range(1000, 4096))...)
 		default:
 			return append([]byte(id+"|"), r.Bytes(r.Range(0, 40))...)
